@@ -29,9 +29,42 @@ type JEntry struct {
 	Type  string `json:"type"` // N | CC1 | CC2
 	Pid   int    `json:"pid"`  // proposal id (0 = none / raft-made entry)
 	Rid   int    `json:"rid"`  // read-context id for MsgReadIndex payload entries
-	CC    string `json:"cc"`   // canonical conf change: "<trans>:v1 l2 r3" ("" if none)
+	CC    JCC    `json:"cc"`   // structured conf change (trans "" if none)
 	Sz    int    `json:"sz"`   // proto.Size
 	Psz   int    `json:"psz"`  // len(Data)
+}
+
+type JCh struct {
+	T  string `json:"t"` // v | l | r | u
+	ID uint64 `json:"id"`
+}
+
+type JCC struct {
+	Trans   string `json:"trans"` // "" (no conf change) | auto | implicit | explicit
+	Changes []JCh  `json:"changes"`
+}
+
+func jCC(cc *pb.ConfChangeV2) JCC {
+	out := JCC{Trans: "auto", Changes: []JCh{}}
+	switch cc.GetTransition() {
+	case pb.ConfChangeTransitionJointImplicit:
+		out.Trans = "implicit"
+	case pb.ConfChangeTransitionJointExplicit:
+		out.Trans = "explicit"
+	}
+	for _, c := range cc.Changes {
+		t := "u"
+		switch c.GetType() {
+		case pb.ConfChangeAddNode:
+			t = "v"
+		case pb.ConfChangeAddLearnerNode:
+			t = "l"
+		case pb.ConfChangeRemoveNode:
+			t = "r"
+		}
+		out.Changes = append(out.Changes, JCh{T: t, ID: c.GetNodeId()})
+	}
+	return out
 }
 
 type JSnap struct {
@@ -254,12 +287,24 @@ type Event struct {
 
 const noLimitU = ^uint64(0)
 
-// clampU maps "no limit" to a big-but-small integer TLC can handle.
+// clampU maps "no limit" to the NoLimit constant of the specification (TLC
+// integers are 32 bit).
 func clampU(v uint64) uint64 {
-	if v > 1<<40 {
-		return 1 << 40
+	if v > 1<<30 {
+		return 1 << 30
 	}
 	return v
+}
+
+func clampCl(cl JCluster) *JCluster {
+	out := cl
+	out.Nodes = append([]JNodeCfg(nil), cl.Nodes...)
+	for i := range out.Nodes {
+		n := &out.Nodes[i]
+		n.MaxSizePerMsg, n.MaxCommittedSize = clampU(n.MaxSizePerMsg), clampU(n.MaxCommittedSize)
+		n.MaxUncommittedSize, n.MaxInflightBytes = clampU(n.MaxUncommittedSize), clampU(n.MaxInflightBytes)
+	}
+	return &out
 }
 
 func u64s(s []uint64) []uint64 {
@@ -299,19 +344,8 @@ func pidOf(data []byte) (pid, rid int) {
 	return -1, 0 // unknown payload: "invented"
 }
 
-func ccString(cc *pb.ConfChangeV2) string {
-	tr := "auto"
-	switch cc.GetTransition() {
-	case pb.ConfChangeTransitionJointImplicit:
-		tr = "implicit"
-	case pb.ConfChangeTransitionJointExplicit:
-		tr = "explicit"
-	}
-	return tr + ":" + pb.ConfChangesToString(cc.Changes)
-}
-
 func jEntry(e *pb.Entry) JEntry {
-	je := JEntry{Term: e.GetTerm(), Index: e.GetIndex(), Sz: proto.Size(e), Psz: len(e.GetData())}
+	je := JEntry{Term: e.GetTerm(), Index: e.GetIndex(), Sz: proto.Size(e), Psz: len(e.GetData()), CC: JCC{Changes: []JCh{}}}
 	switch e.GetType() {
 	case pb.EntryNormal:
 		je.Type = "N"
@@ -322,7 +356,7 @@ func jEntry(e *pb.Entry) JEntry {
 		if err := proto.Unmarshal(e.GetData(), &cc); err != nil {
 			je.Pid = -1
 		} else {
-			je.CC = "v1:" + pb.ConfChangesToString(cc.AsV2().Changes)
+			je.CC = jCC(cc.AsV2())
 			je.Pid, _ = pidOf(cc.Context)
 		}
 	case pb.EntryConfChangeV2:
@@ -331,7 +365,7 @@ func jEntry(e *pb.Entry) JEntry {
 		if err := proto.Unmarshal(e.GetData(), &cc); err != nil {
 			je.Pid = -1
 		} else {
-			je.CC = ccString(&cc)
+			je.CC = jCC(&cc)
 			je.Pid, _ = pidOf(cc.Context)
 		}
 	}
